@@ -111,7 +111,8 @@ def check_reduce_lookahead(rep, f, prefix=""):
                 elif x[0] == "call" and x[1] == "std::option::Option::<T>::map":
                     mt = b.blocks[x[2]]["t"]
                     src = origins(b, mt["args"][0], transparent=lambda cc: [0] if cc and cc.endswith("Option::<T>::as_ref") else None)
-                    from_la = bool(src) and all(y[0] == "arg" and y[1] == 2 and not y[2] for y in src)
+                    slot_origins = origins(b, 2, transparent=lambda cc: None) | {("arg", 2, ())}
+                    from_la = bool(src) and src <= slot_origins and ("arg", 2, ()) in src
                     clo = origins(b, mt["args"][1])
                     body_ok = False
                     for y in clo:
